@@ -796,6 +796,64 @@ func init() {
 				out = append(out, r)
 			}
 		}
+		// the iterator form of a map loop: maps.Keys / maps.Values / maps.All deliver the entries in
+		// map order. Accepted only when the sequence goes straight into slices.Sorted (a total order
+		// on a basic element type); anything else lets the iteration order escape.
+		for _, fn := range list {
+			n := 0
+			for _, b := range fn.Blocks {
+				for _, in := range b.Instrs {
+					c, ok := in.(*ssa.Call)
+					if !ok {
+						continue
+					}
+					callee := c.Common().StaticCallee()
+					if callee == nil {
+						continue
+					}
+					o := callee
+					if og := callee.Origin(); og != nil {
+						o = og
+					}
+					if o.Pkg == nil || o.Pkg.Pkg.Path() != "maps" || (o.Name() != "Keys" && o.Name() != "Values" && o.Name() != "All") {
+						continue
+					}
+					n++
+					ok2 := c.Referrers() != nil && len(*c.Referrers()) > 0
+					why := ""
+					if ok2 {
+						for _, r := range *c.Referrers() {
+							if _, dbg := r.(*ssa.DebugRef); dbg {
+								continue
+							}
+							rc, isCall := r.(*ssa.Call)
+							good := false
+							if isCall {
+								if sc := rc.Common().StaticCallee(); sc != nil {
+									so := sc
+									if og := sc.Origin(); og != nil {
+										so = og
+									}
+									if so.Pkg != nil && so.Pkg.Pkg.Path() == "slices" && so.Name() == "Sorted" {
+										good = true
+									}
+								}
+							}
+							if !good {
+								ok2 = false
+								why = fmt.Sprintf("the sequence of maps.%s is consumed by %s, not by slices.Sorted: the map's iteration order escapes", o.Name(), r)
+							}
+						}
+					}
+					res := &StaticResult{Name: fmt.Sprintf("maprange %s maps.%s#%d / order-independent", fnDisplayName(fn), o.Name(), n), Kind: "maprange",
+						Text: fmt.Sprintf("the map iterator at %s is sorted before use", shortPos(eng.fset.Position(c.Pos()).String())), OK: ok2, Detail: why}
+					if ok2 {
+						res.Detail = "maps." + o.Name() + " -> slices.Sorted"
+					}
+					out = append(out, res)
+				}
+			}
+		}
 		if len(out) == 0 && s.Args["allow_empty"] == "" {
 			errs = append(errs, "maprange: no range-over-map site found in the selected functions")
 		}
